@@ -13,6 +13,7 @@ from . import core
 from .num import Sym, lift, liftable, _real, DomainError
 
 
+SQRT_HINTS = []             # candidate roots (known to be >= 0 in the harness' domain)
 SQRT_POSITIVE = [False]     # harness option: radicands are positive in the stated domain
 SQRT_OF = {}          # name of a root variable -> its radicand (for harness oracles)
 DIV_MODE = ["branch"]
@@ -287,6 +288,10 @@ class Q:
         r = self._exact_sqrt()
         if r is not None:
             return r
+        for hint in SQRT_HINTS:
+            # a harness-supplied non-negative expression whose square is this radicand (identity)
+            if bool(value_true(poly_eq(self, hint * hint))):
+                return hint
         if DIV_MODE[0] != "assume" and core.branch((self < 0).t):
             raise DomainError("sqrt of a negative number")
         # (in "assume" mode the equation v^2 == radicand below restricts the path to the domain)
@@ -411,6 +416,11 @@ def adj_inv(a, *args, **kw):
         for j in range(n):
             out[i, j] = adj[i, j] * rdet
     return out
+
+
+def value_true(sym):
+    """True iff the Sym is syntactically the constant true"""
+    return z3.is_true(z3.simplify(sym.t))
 
 
 def _free_consts(t):
